@@ -109,28 +109,35 @@ Lemma urrset_em_chain sec rs file t em t' :
   TableSound file t -> wf_urrset sec rs ->
   rrset_em rs o true (zlen file) t = Ok (em, t') ->
   TableSound (file ++ em) t' /\
-  exists d, Chain o (file ++ em) (length file) [d] (length (file ++ em)) /\ udesc sec rs d /\ rrset_count rs = 1.
+  exists d, Chain o (file ++ em) (length file) [d] (length (file ++ em)) /\ udesc sec rs d /\ rrset_count rs = 1 /\
+    (forall tq, tbl_ci tq t ->
+       exists tq', rrset_em (urrset zc sec d) o true (zlen file) tq = Ok (em, tq') /\ tbl_ci tq' t').
 Proof.
   intros TS (NW & T1 & T2 & K) H.
   destruct (name_wf_full o (rname rs) OO NW) as (Lown & HFo & NOL).
   unfold rrset_em in H.
   destruct K as [(E & EC & ECV & ETT & ED)|(rd & fs & E & HS & PO & SH & TTL & COV & ED)]; rewrite E in H.
   - (* an empty form *)
-    destruct (rr_em_read o o [] (rname rs) Lown (rtype rs) (wclass rs) 0 [] true true file t em t' OO OO TS HFo NOL
+    destruct (rr_em_read_x o o [] (rname rs) Lown (rtype rs) (wclass rs) 0 [] true true file t em t' OO OO TS HFo NOL
                          (Forall_nil _) sh_nil H)
-      as (TS1 & R1 & R2 & R3 & abs' & owner' & rd' & c1 & rdl & CIa & NOa & HX & CI2 & PO2 & S2 & A & B & C & Ex).
-    destruct (name_back o (rname rs) Lown abs' OO NW HFo CIa NOa) as (x' & HX' & CI1 & NO1).
+      as (TS1 & R1 & R2 & R3 & abs' & owner' & rd' & c1 & rdl & CIa & NOa & HX & CI2 & PO2 & S2 & A & B & C & Ex & SL & RE1).
+    destruct (name_back_sim o (rname rs) Lown abs' true t OO NW HFo SL NOa) as (x' & X & HX' & CI1 & NO1 & HFX & SX).
     assert (x' = owner') by congruence. subst x'.
     inversion CI2; subst.
     split; [exact TS1|]. exists (mkD owner' (rtype rs) (wclass rs) 0 [] []).
     split.
     { econstructor; [|constructor; lia]. exists abs'. cbn [d_owner d_ty d_cl d_ttl d_fs d_rd].
       exists c1, rdl. split; [exact A|]. split; [lia|]. split; [exact B|]. split; [exact C|]. exact Ex. }
-    split; [|unfold rrset_count; rewrite E; reflexivity].
     assert (WC : wclass rs = cANY \/ (wclass rs = cNONE /\ sec = 1)).
     { unfold wclass. destruct ED as [->|(-> & ->)]; auto. }
     assert (UE : upd_empty sec (mkD owner' (rtype rs) (wclass rs) 0 [] []) = true).
     { unfold upd_empty, is_meta. cbn [d_cl]. destruct WC as [->|(-> & ->)]; reflexivity. }
+    split; [|split; [unfold rrset_count; rewrite E; reflexivity|]].
+    2:{ intros tq TC. destruct (RE1 tq owner' X TC HFX SX) as (tq' & E1 & TC'). exists tq'. split; [|exact TC'].
+        unfold urrset. rewrite UE. unfold rrset_em, wclass at 1, upd_del, upd_class, is_meta.
+        cbn [rrds rname rtype rclass rdeleting d_owner d_ty d_cl].
+        assert (M : (wclass rs =? cANY) || (wclass rs =? cNONE) = true) by (destruct WC as [->|(-> & _)]; reflexivity).
+        rewrite M. exact E1. }
     unfold udesc, ugood, urrset. rewrite UE. cbn [d_ty d_fs d_rd d_owner d_cl].
     split; [auto|].
     unfold rrset_equiv, upd_class, upd_del, is_meta. cbn [rname rclass rtype rcovers rdeleting rttl rrds d_cl d_owner d_ty].
@@ -141,15 +148,29 @@ Proof.
   - (* one record *)
     cbn [rrs_em] in H. apply bind_ok in H. destruct H as ([e1 t1] & H1 & H). cbn [bind fst snd] in H.
     injection H as <- <-. rewrite app_nil_r.
-    destruct (rr_em_read o o fs (rname rs) Lown (rtype rs) (wclass rs) (rttl rs) rd true true file t e1 t1 OO OO TS HFo NOL PO SH H1)
-      as (TS1 & R1 & R2 & R3 & abs' & owner' & rd' & c1 & rdl & CIa & NOa & HX & CI2 & PO2 & S2 & A & B & C & Ex).
-    destruct (name_back o (rname rs) Lown abs' OO NW HFo CIa NOa) as (x' & HX' & CI1 & NO1).
+    destruct (rr_em_read_x o o fs (rname rs) Lown (rtype rs) (wclass rs) (rttl rs) rd true true file t e1 t1 OO OO TS HFo NOL PO SH H1)
+      as (TS1 & R1 & R2 & R3 & abs' & owner' & rd' & c1 & rdl & CIa & NOa & HX & CI2 & PO2 & S2 & A & B & C & Ex & SL & RE1).
+    destruct (name_back_sim o (rname rs) Lown abs' true t OO NW HFo SL NOa) as (x' & X & HX' & CI1 & NO1 & HFX & SX).
     assert (x' = owner') by congruence. subst x'.
     split; [exact TS1|]. exists (mkD owner' (rtype rs) (wclass rs) (rttl rs) fs rd').
     split.
     { econstructor; [|constructor; lia]. exists abs'. cbn [d_owner d_ty d_cl d_ttl d_fs d_rd].
       exists c1, rdl. split; [exact A|]. split; [lia|]. split; [exact B|]. split; [exact C|]. exact Ex. }
-    split; [|unfold rrset_count; rewrite E; reflexivity].
+    split; [|split; [unfold rrset_count; rewrite E; reflexivity|]].
+    2:{ intros tq TC. destruct (RE1 tq owner' X TC HFX SX) as (tq' & E1 & TC'). exists tq'. split; [|exact TC'].
+        assert (UE : upd_empty sec (mkD owner' (rtype rs) (wclass rs) (rttl rs) fs rd') = false /\
+                     (match upd_del (mkD owner' (rtype rs) (wclass rs) (rttl rs) fs rd') with
+                      | Some x => x | None => upd_class zc (mkD owner' (rtype rs) (wclass rs) (rttl rs) fs rd') end) = wclass rs).
+        { unfold upd_empty, upd_class, upd_del, is_meta, wclass in *. cbn [d_cl].
+          destruct ED as [(-> & M)|(-> & EC & NS)].
+          - unfold is_meta in M. rewrite M. auto.
+          - change ((cNONE =? cANY) || (cNONE =? cNONE)) with true. change (cNONE =? cANY) with false.
+            destruct (Z.eqb_spec sec 1); [contradiction|]. cbn [andb orb]. auto. }
+        destruct UE as (U1 & UW).
+        unfold urrset. rewrite U1. unfold rrset_add, set_rds.
+        cbn [rrds rttl rtype rname rclass rcovers rdeleting existsb app d_owner d_ty d_rd d_ttl].
+        unfold rrset_em. cbn [rrds rname rtype rttl]. unfold wclass at 1. cbn [rdeleting rclass].
+        rewrite UW. cbn [rrs_em]. rewrite E1. cbn [bind fst snd]. rewrite app_nil_r. reflexivity. }
     assert (UE : upd_empty sec (mkD owner' (rtype rs) (wclass rs) (rttl rs) fs rd') = false /\
                  upd_class zc (mkD owner' (rtype rs) (wclass rs) (rttl rs) fs rd') = rclass rs /\
                  upd_del (mkD owner' (rtype rs) (wclass rs) (rttl rs) fs rd') = rdeleting rs).
@@ -178,21 +199,25 @@ Lemma add_rrsets_chain_u sec : forall l r r' file,
     count_of r' sec = count_of r sec + zlen ds /\
     (forall s, 0 <= s <= 3 -> s <> sec -> count_of r' s = count_of r s) /\
     rflags r' = rflags r /\ maxsz r' = maxsz r /\ reserved r' = reserved r /\ padded r' = padded r /\
-    rsec r <= rsec r' <= Z.max (rsec r) sec.
+    rsec r <= rsec r' <= Z.max (rsec r) sec /\
+    (forall l2 tq, l2 = map (urrset zc sec) ds -> tbl_ci tq (tbl r) ->
+       exists tq', add_rrsets o sec l2 (with_tbl r tq) = Ok (false, with_tbl r' tq') /\ tbl_ci tq' (tbl r')).
 Proof.
   induction l as [|rs l IH]; intros r r' file Hsec Hz TS TB WF H.
   - injection H as <-. exists [], []. rewrite !app_nil_r.
     split; [reflexivity|]. split; [exact TS|]. split; [exact TB|].
     split; [constructor; lia|]. split; [constructor|].
     split; [change (zlen (@nil rrd)) with 0; lia|].
-    split; [reflexivity|]. repeat split; lia.
+    split; [reflexivity|]. split; [reflexivity|]. split; [reflexivity|]. split; [reflexivity|]. split; [reflexivity|].
+    split; [lia|].
+    intros l2 tq -> TC. exists tq. split; [|exact TC]. cbn [map add_rrsets]. destruct r; reflexivity.
   - cbn [add_rrsets] in H. apply bind_ok in H. destruct H as ([b1 r1] & H1 & H). cbn [fst snd] in H.
     destruct b1; [discriminate|]. inversion WF as [|? ? W1 WF']; subst.
     rewrite add_rrset_tracked in H1.
     destruct (tracked_spec _ _ _ _ _ _ (ext_rrset_em _ _ _) TB H1) as (Hs & em1 & new & HE & F & [(_ & Hfit & ->)|(Hb & _)]);
       [|discriminate].
     rewrite <- Hz in HE.
-    destruct (urrset_em_chain sec rs file (tbl r) em1 _ TS W1 HE) as (TS1 & d & CH1 & UD & Hcnt).
+    destruct (urrset_em_chain sec rs file (tbl r) em1 _ TS W1 HE) as (TS1 & d & CH1 & UD & Hcnt & RE1).
     set (r1 := inc_count (set_out (set_rsec r sec) (out r ++ em1) (tbl r ++ new)) sec (rrset_count rs)) in *.
     assert (Hz1 : zlen (file ++ em1) = zlen (out r1)).
     { unfold r1. cbn [out inc_count set_out]. rewrite !zlen_app'. lia. }
@@ -201,7 +226,7 @@ Proof.
       rewrite zlen_app'. apply Forall_app. split.
       - eapply Forall_impl; [|exact TB]. cbn beta. intros kv Hk. pose proof (zlen_nn em1). nlia.
       - eapply Forall_impl; [|exact F]. cbn beta. intros kv (Hk & _). nlia. }
-    destruct (IH r1 r' (file ++ em1) Hsec Hz1 TS1 TB1 WF' H) as (em2 & ds2 & O2 & TS2 & TB2 & CH2 & SD2 & C2 & C2' & FL & MX & RV & PD & RS).
+    destruct (IH r1 r' (file ++ em1) Hsec Hz1 TS1 TB1 WF' H) as (em2 & ds2 & O2 & TS2 & TB2 & CH2 & SD2 & C2 & C2' & FL & MX & RV & PD & RS & RE2).
     exists (em1 ++ em2), ([d] ++ ds2).
     rewrite <- app_assoc in TS2, CH2.
     split; [rewrite O2; unfold r1; cbn [out inc_count set_out]; rewrite <- app_assoc; reflexivity|].
@@ -218,29 +243,22 @@ Proof.
     { intros s Hr Hne. rewrite (C2' s Hr Hne). unfold count_of, r1. cbn [cq can cau cad inc_count set_out set_rsec].
       destruct (Z.eqb_spec sec 0); destruct (Z.eqb_spec sec 1); destruct (Z.eqb_spec sec 2); destruct (Z.eqb_spec sec 3);
         destruct (Z.eqb_spec s 0); destruct (Z.eqb_spec s 1); destruct (Z.eqb_spec s 2); try lia; reflexivity. }
-    unfold r1 in *. cbn [rflags maxsz reserved padded rsec inc_count set_out set_rsec] in *.
-    repeat split; try assumption; lia.
+    split; [rewrite FL; reflexivity|]. split; [rewrite MX; reflexivity|]. split; [rewrite RV; reflexivity|].
+    split; [rewrite PD; reflexivity|].
+    split; [unfold r1 in RS; cbn [rsec inc_count set_out set_rsec] in RS; lia|].
+    intros l2 tq -> TC. rewrite Hz in RE1.
+    destruct (tracked_sim (rrset_em (urrset zc sec d) o true) _ _ _ _ _ tq H1 TC) as (tq1 & T1 & TC1).
+    { intros em0 t0 HE0. rewrite <- Hz in HE0. assert (em0 = em1 /\ t0 = tbl r ++ new) as (-> & ->) by (split; congruence).
+      apply RE1. exact TC. }
+    destruct (RE2 _ tq1 eq_refl TC1) as (tq' & T2 & TC').
+    exists tq'. split; [|exact TC']. cbn [app map add_rrsets]. rewrite add_rrset_tracked.
+    assert (Ecnt : rrset_count (urrset zc sec d) = rrset_count rs).
+    { rewrite Hcnt. destruct UD as (G & _). unfold urrset, ugood in *. destruct G as (_ & _ & G).
+      destruct (upd_empty sec d); [reflexivity|]. unfold rrset_add, set_rds. cbn [rrds]. reflexivity. }
+    rewrite Ecnt. rewrite T1. cbn [bind fst snd]. exact T2.
 Qed.
 
-Lemma add_rrsets_chain_u0 sec : forall l r r' file,
-  1 <= sec <= 3 ->
-  zlen file = zlen (out r) -> TableSound file (tbl r) -> TblBelow r -> Forall (wf_urrset sec) l ->
-  add_rrsets o sec l r = Ok (false, r') ->
-  exists em ds,
-    out r' = out r ++ em /\ TableSound (file ++ em) (tbl r') /\ TblBelow r' /\
-    Chain o (file ++ em) (length file) ds (length (file ++ em)) /\ Forall2 (udesc sec) l ds /\
-    count_of r' sec = count_of r sec + zlen ds /\
-    (forall s, 0 <= s <= 3 -> s <> sec -> count_of r' s = count_of r s) /\
-    rflags r' = rflags r /\ maxsz r' = maxsz r /\ reserved r' = reserved r /\ padded r' = padded r /\
-    rsec r <= rsec r' <= Z.max (rsec r) sec /\
-    (forall (l2 : list rrset) tq, False -> tbl_ci tq (tbl r) ->
-       exists tq', add_rrsets o sec l2 (with_tbl r tq) = Ok (false, with_tbl r' tq') /\ tbl_ci tq' (tbl r')).
-Proof.
-  intros l r r' file Hsec Hz TS TB WF H.
-  destruct (add_rrsets_chain_u sec l r r' file Hsec Hz TS TB WF H)
-    as (em & ds & A1 & A2 & A3 & A4 & A5 & A6 & A7 & A8 & A9 & A10 & A11 & A12).
-  exists em, ds. repeat (split; [assumption|]). intros l2 tq [].
-Qed.
+
 
 End UpdRender.
 
@@ -407,22 +425,24 @@ Qed.
 (* dynamic updates: zone section, prerequisites and updates in all their forms (RRset exists value
    independent / dependent, name in use / not in use, RRset does not exist; add, delete an RRset,
    delete all RRsets of a name, delete an RR), additional records, EDNS and TSIG *)
-Theorem update_roundtrip_lemma m z ms rp w :
+Theorem update_roundtrip_rerender_lemma m z ms rp w :
   WfUpd o m z -> wf_tsig m -> to_wire m o ms rp false 0 = Ok w ->
-  exists m', from_wire w o po0 = Ok m' /\ msg_equiv_t m' m.
+  exists m', from_wire w o po0 = Ok m' /\ msg_equiv_t m' m /\ to_wire m' o ms rp false 0 = Ok w.
 Proof.
   intros [WU WZ WN WT WC WA WUu WD WO] WTS H.
   set (zc := rclass z) in *.
   assert (WQ : Forall (fun rs => name_wf o (rname rs)) (mq m)) by (rewrite WZ; constructor; [exact WN|constructor]).
-  destruct (layout_final o OO (wf_urrset o zc) (fun sec l ds => Forall2 (udesc zc sec) l ds) (fun _ _ _ => False)
-                         (fun sec l r r' file => add_rrsets_chain_u0 o OO zc sec l r r' file) m ms rp w WQ WA WUu WD WO WTS H)
+  destruct (layout_final o OO (wf_urrset o zc) (fun sec l ds => Forall2 (udesc zc sec) l ds)
+                         (fun sec (l : list rrset) ds l2 => l2 = map (urrset zc sec) ds)
+                         (fun sec l r r' file => add_rrsets_chain_u o OO zc sec l r r' file) m ms rp w WQ WA WUu WD WO WTS H)
     as (qs & ds1 & ds2 & ds3 & owner' & wb & body & e0 & e1 & e2 & e3 & e4 & t' & Ew & Hid & Hfl & L0 & L1 & L2 & L3 &
-        QC & C1 & C2 & C3 & QD & SD1 & SD2 & SD3 & HO & HT & TE & _).
+        QC & C1 & C2 & C3 & QD & SD1 & SD2 & SD3 & HO & HT & TE & RR).
   rewrite WZ in QD. inversion QD as [|? q ? qs' (Q1 & Q2 & Q3 & Q4) QD']; subst. inversion QD'; subst.
   destruct (udesc_lists zc 1 ltac:(lia) _ _ SD1) as (G1 & E1).
   destruct (udesc_lists zc 2 ltac:(lia) _ _ SD2) as (G2 & E2).
   destruct (udesc_lists zc 3 ltac:(lia) _ _ SD3) as (G3 & E3).
-  exists (read_result_u zc (mid m) (mflags m) q ds1 ds2 ds3 (mopt m) t'). split.
+  exists (read_result_u zc (mid m) (mflags m) q ds1 ds2 ds3 (mopt m) t').
+  split.
   - change (zlen [q]) with 1 in *.
     eapply (read_structure_u o zc); try eassumption.
     + rewrite Q3. exact WT.
@@ -450,6 +470,10 @@ Proof.
     destruct X as (X1 & X2 & X3 & X4 & X5 & X6 & X7 & X8).
     assert (QE : Forall2 q_equiv [mkRR (q_name q) (q_cl q) (q_ty q) 0 None 0 []] [z]).
     { constructor; [|constructor]. unfold q_equiv. cbn [rname rclass rtype rcovers rdeleting rttl rrds]. auto 10. }
+    split.
+    2:{ apply RR; destruct (mopt m) as [o'|]; destruct t' as [[kn' rd']|];
+          cbn [mid mflags mq man mau mad mopt mtsig set_opt set_tsig];
+          rewrite ?X1, ?X2, ?X3, ?X4, ?X5, ?X6, ?X7, ?X8; try reflexivity; try (destruct o'; reflexivity). }
     unfold msg_equiv_t, msg_equiv.
     destruct (mopt m) as [o'|] eqn:EO; destruct t' as [[kn' rd']|];
       cbn [mid mflags mq man mau mad mopt mtsig set_opt set_tsig tsig_equiv];
@@ -458,5 +482,21 @@ Proof.
     + split; [repeat split; try assumption; destruct o'; reflexivity|]. destruct (mtsig m) as [[kn rd]|]; [contradiction|exact Logic.I].
     + split; [repeat split; assumption|]. destruct (mtsig m) as [[kn rd]|]; [exact TE|contradiction].
     + split; [repeat split; assumption|]. destruct (mtsig m) as [[kn rd]|]; [contradiction|exact Logic.I].
+Qed.
+
+Theorem update_roundtrip_lemma m z ms rp w :
+  WfUpd o m z -> wf_tsig m -> to_wire m o ms rp false 0 = Ok w ->
+  exists m', from_wire w o po0 = Ok m' /\ msg_equiv_t m' m.
+Proof.
+  intros WF WT H. destruct (update_roundtrip_rerender_lemma m z ms rp w WF WT H) as (m' & A & B & _).
+  exists m'. split; assumption.
+Qed.
+
+Theorem update_rerender_lemma m z ms rp w m' :
+  WfUpd o m z -> wf_tsig m -> to_wire m o ms rp false 0 = Ok w -> from_wire w o po0 = Ok m' ->
+  to_wire m' o ms rp false 0 = Ok w.
+Proof.
+  intros WF WT H HF. destruct (update_roundtrip_rerender_lemma m z ms rp w WF WT H) as (m2 & A & _ & B).
+  assert (m2 = m') by congruence. subst m2. exact B.
 Qed.
 End UpdFinal.
